@@ -15,11 +15,15 @@ def sh(cmd, **kw):
 def main():
     only = None
     tier = "both"
+    missing = False
+    props = None
     args = sys.argv[1:]
     while args:
         a = args.pop(0)
         if a == "--only": only = args.pop(0)
         if a == "--tier": tier = args.pop(0)
+        if a == "--missing": missing = True
+        if a == "--props": props = args.pop(0).split(",")
     resf = os.path.join(VERIF, "seeded", "RESULTS.json")
     results = json.load(open(resf)) if os.path.exists(resf) else {}
     rc, out = sh(["git", "-C", REPO, "status", "--porcelain"])
@@ -28,6 +32,8 @@ def main():
     for d in sorted(glob.glob(os.path.join(VERIF, "seeded", "*", ""))):
         name = os.path.basename(d.rstrip("/"))
         if only and only not in name: continue
+        if props and name.split("-")[0] not in props: continue
+        if missing and results.get(name, {}).get("status") == "caught": continue
         patch = os.path.join(d, "patch.diff")
         meta = json.load(open(os.path.join(d, "meta.json")))
         prop = meta["property"]
@@ -65,12 +71,15 @@ def main():
         finally:
             sh(["git", "-C", REPO, "checkout", "--", "."])
             sh(["git", "-C", REPO, "clean", "-fdq"])
-            for f in glob.glob(os.path.join(VERIF, "replays", "*.json")):
+            for f in glob.glob(os.path.join(VERIF, "replays", prop + "-*.json")) + [x for p in also for x in glob.glob(os.path.join(VERIF, "replays", p + "-*.json"))]:
                 os.remove(f)
-        results[name] = r
-        print(name, r["status"], r.get("caught_by", ""))
-        json.dump(results, open(resf, "w"), indent=1, sort_keys=True)
-    json.dump(results, open(resf, "w"), indent=1, sort_keys=True)
+        print(name, r["status"], r.get("caught_by", ""), flush=True)
+        import fcntl
+        with open(resf + ".lock", "w") as lk:
+            fcntl.flock(lk, fcntl.LOCK_EX)
+            results = json.load(open(resf)) if os.path.exists(resf) else {}
+            results[name] = r
+            json.dump(results, open(resf, "w"), indent=1, sort_keys=True)
 
 if __name__ == "__main__":
     main()
